@@ -1,5 +1,10 @@
 package main
 
+import (
+	"encoding/json"
+	"fmt"
+)
+
 // C08: a schema / parameter / header validator built without recycling can be used any number of times, in any order;
 // each call gives the verdict and message set of a freshly built validator, whatever the map iteration order.
 
@@ -60,6 +65,36 @@ func genC08(seed uint64) *Scenario {
 	n := pick(r, []int{2, 3, 4, 6, 8, 12, 20, 30})
 	if r.Chance(40) {
 		n = pick(r, []int{80, 150, 300}) // long service: counters and leaks that need many calls
+	}
+	if n >= 30 || r.Chance(100) {
+		// ... and bounded memos that need many DISTINCT values: every validator gets a few dozen of them
+		for li := range lls {
+			def := sc.LL[li]
+			for k := 0; k < r.Range(20, 40); k++ {
+				switch def.Kind {
+				case "schema":
+					var m M
+					if json.Unmarshal([]byte(def.Schema), &m) == nil {
+						inst := g.Instance(m, 0, r.Chance(500))
+						if s, ok := inst.(string); ok && r.Chance(700) {
+							inst = fmt.Sprintf("%s%d", s, k) // distinct strings around the samples (a0, a1, ...)
+						}
+						lls[li].insts = append(lls[li].insts, js(inst))
+					}
+				default:
+					var m M
+					if json.Unmarshal([]byte(def.Schema), &m) == nil {
+						tv := g.TypedFor(m, r.Chance(500))
+						if tv.T == "string" && r.Chance(700) {
+							var sv string
+							_ = json.Unmarshal([]byte(tv.J), &sv)
+							tv = &TypedVal{T: "string", J: js(fmt.Sprintf("%s%d", sv, k))}
+						}
+						lls[li].tvals = append(lls[li].tvals, tv)
+					}
+				}
+			}
+		}
 	}
 	if deep() {
 		n = pick(r, []int{3, 6, 12, 30, 60, 100, 300, 600})
